@@ -45,11 +45,13 @@ def same(label, got, want, goals):
         goals.append((label + f" (dtype {np.dtype(got.dtype).name}, expected {np.dtype(want.dtype).name})", z3.BoolVal(False)))
 
 
-def run_paths(keybase, fnname, thunk, witness, extra_backend=None, max_paths=32, timeout_ms=8000, keep_real=()):
+def run_paths(keybase, fnname, thunk, witness, extra_backend=None, max_paths=32, timeout_ms=8000, keep_real=(), collapse=True):
     alg.ESCALATE[0] = not known_related(keybase)
     t0 = time.time()
     results = {}
     restore = kidx.activate(extra_backend or {})
+    old_collapse = idx.COLLAPSE[0]
+    idx.COLLAPSE[0] = collapse
     try:
         with stubs.installed({}, keep_real=keep_real, backend=ifns):
             for path in explore(thunk, max_paths=max_paths):
@@ -71,6 +73,7 @@ def run_paths(keybase, fnname, thunk, witness, extra_backend=None, max_paths=32,
     except Unsupported as e:
         return [Ob(key=keybase, fn=fnname, clause="(all clauses)", engine="IDX", status=UNSUPPORTED, detail=f"Unsupported: {e}", secs=time.time() - t0)]
     finally:
+        idx.COLLAPSE[0] = old_collapse
         restore()
     out = []
     for label, rs in results.items():
